@@ -705,7 +705,11 @@ func (messagesMapper) Save(msg *types.Message, attachmentURLs []string, readBySe
 			}
 		}
 		if len(attachments) > 0 {
-			return adp.FileLinkAttachments("", types.ZeroUid, msg.Uid(), attachments), markedReadBySender
+			// The message is already saved. Failing the call here would make the topic re-issue
+			// the same SeqId to the next message. Report the problem and carry on.
+			if linkErr := adp.FileLinkAttachments("", types.ZeroUid, msg.Uid(), attachments); linkErr != nil {
+				logs.Warn.Printf("topic[%s]: failed to link attachments to message (seq: %d) - err: %+v", msg.Topic, msg.SeqId, linkErr)
+			}
 		}
 	}
 
